@@ -8,37 +8,34 @@
 From Coq Require Import String Ascii List Arith Bool.
 Require Import TT.Model.Str TT.Model.TypeParse TT.Model.Render TT.Spec.TsLex.
 Require TT.Model.Pipeline TT.Model.PipelineZod TT.Model.Events.
-Require Import TT.Model.C08Fingerprint.
+Require Import TT.Model.C08Fingerprint TT.Model.C08Run.
 Import ListNotations.
 Local Open Scope list_scope.
 
-Module P := TT.Model.Pipeline.
-Module PZ := TT.Model.PipelineZod.
-Module EV := TT.Model.Events.
 
 (* ---- the project as syntax ---- *)
-Record tfn := { t_def : P.fn_def; t_line : str }.
-Record tfile := { tf_path : str; tf_structs : list P.struct_def; tf_fns : list tfn; tf_events : list event;
+Record tfn := { t_def : Pipeline.fn_def; t_line : str }.
+Record tfile := { tf_path : str; tf_structs : list Pipeline.struct_def; tf_fns : list tfn; tf_events : list event;
                   tf_ndefs : str }.
 Definition tproject := list tfile.
 Definition empty_tfile : tfile := {| tf_path := []; tf_structs := []; tf_fns := []; tf_events := []; tf_ndefs := [] |}.
 
 (* ---- analysis: syntax -> analysed data (models.rs records) ---- *)
-Definition kept (f : P.field) : bool := negb (P.skipped (P.f_serde f)).
-Definition abs_field (f : P.field) : field :=
-  {| f_name := P.f_name f; f_type := P.qtts (P.f_ty f); f_opt := P.is_option (P.f_ty f); f_pub := true;
-     f_rename := P.rename_of (P.f_serde f); f_valid := None |}.
-Definition abs_struct (path : str) (s : P.struct_def) : struct :=
-  {| s_name := P.s_name s; s_file := path; s_enum := false;
-     s_fields := map abs_field (filter kept (P.s_fields s)); s_rename_all := P.rename_all_of (P.s_serde s) |}.
-Definition abs_param (p : str * P.qty) : param :=
-  {| p_name := fst p; p_type := P.qtts (snd p); p_opt := P.is_option (snd p); p_rename := None |}.
-Definition abs_chan (c : str * P.qty) : chan := {| ch_param := fst c; ch_msg := P.qtts (snd c) |}.
+Definition kept (f : Pipeline.field) : bool := negb (Pipeline.skipped (Pipeline.f_serde f)).
+Definition abs_field (f : Pipeline.field) : field :=
+  {| f_name := Pipeline.f_name f; f_type := Pipeline.qtts (Pipeline.f_ty f); f_opt := Pipeline.is_option (Pipeline.f_ty f); f_pub := true;
+     f_rename := Pipeline.rename_of (Pipeline.f_serde f); f_valid := None |}.
+Definition abs_struct (path : str) (s : Pipeline.struct_def) : struct :=
+  {| s_name := Pipeline.s_name s; s_file := path; s_enum := false;
+     s_fields := map abs_field (filter kept (Pipeline.s_fields s)); s_rename_all := Pipeline.rename_all_of (Pipeline.s_serde s) |}.
+Definition abs_param (p : str * Pipeline.qty) : param :=
+  {| p_name := fst p; p_type := Pipeline.qtts (snd p); p_opt := Pipeline.is_option (snd p); p_rename := None |}.
+Definition abs_chan (c : str * Pipeline.qty) : chan := {| ch_param := fst c; ch_msg := Pipeline.qtts (snd c) |}.
 Definition abs_cmd (path : str) (t : tfn) : command :=
-  {| c_name := P.fn_name (t_def t); c_file := path; c_line := t_line t;
-     c_params := map abs_param (P.value_params (t_def t)); c_ret := P.ret_string (t_def t);
-     c_async := P.fn_async (t_def t); c_chans := map abs_chan (P.channels (t_def t)); c_rename_all := None |}.
-Definition is_cmd (t : tfn) : bool := P.is_tauri_command (t_def t).
+  {| c_name := Pipeline.fn_name (t_def t); c_file := path; c_line := t_line t;
+     c_params := map abs_param (Pipeline.value_params (t_def t)); c_ret := Pipeline.ret_string (t_def t);
+     c_async := Pipeline.fn_async (t_def t); c_chans := map abs_chan (Pipeline.channels (t_def t)); c_rename_all := None |}.
+Definition is_cmd (t : tfn) : bool := Pipeline.is_tauri_command (t_def t).
 Definition abs_file (f : tfile) : sfile :=
   {| sf_path := tf_path f; sf_cmds := map (abs_cmd (tf_path f)) (filter is_cmd (tf_fns f));
      sf_structs := map (abs_struct (tf_path f)) (tf_structs f); sf_events := tf_events f; sf_ndefs := tf_ndefs f |}.
@@ -51,91 +48,188 @@ Definition fp_t (w : sched) (p : tproject) (c : config) : tree := fp w (abs_proj
 Definition unhashed_t (w : sched) (p : tproject) (c : config) : list tree := unhashed w (abs_project p) c.
 
 (* ---- the items in generation order: structs by name, commands by (relative) file, source order inside a file ---- *)
-Definition t_structs (w : sched) (p : tproject) : list (str * P.struct_def) :=
+Definition t_structs (w : sched) (p : tproject) : list (str * Pipeline.struct_def) :=
   flat_map (fun f => map (pair (tf_path f)) (tf_structs f)) (pick empty_tfile p (w_files w)).
 Definition t_cmds (w : sched) (p : tproject) : list (str * tfn) :=
   flat_map (fun f => map (pair (tf_path f)) (filter is_cmd (tf_fns f))) (pick empty_tfile p (w_files w)).
-Definition abs_struct' (x : str * P.struct_def) : struct := abs_struct (fst x) (snd x).
+Definition abs_struct' (x : str * Pipeline.struct_def) : struct := abs_struct (fst x) (snd x).
 Definition abs_cmd' (x : str * tfn) : command := abs_cmd (fst x) (snd x).
-Definition sleb (a b : str * P.struct_def) : bool := struct_leb (abs_struct' a) (abs_struct' b).
+Definition sleb (a b : str * Pipeline.struct_def) : bool := struct_leb (abs_struct' a) (abs_struct' b).
 Definition cleb (root : str) (a b : str * tfn) : bool := cmd_leb root (abs_cmd' a) (abs_cmd' b).
-Definition gen_structs (w : sched) (p : tproject) : list P.struct_def := map snd (isort sleb (t_structs w p)).
-Definition gen_cmds (w : sched) (p : tproject) (c : config) : list P.fn_def :=
+Definition gen_structs (w : sched) (p : tproject) : list Pipeline.struct_def := map snd (isort sleb (t_structs w p)).
+Definition gen_cmds (w : sched) (p : tproject) (c : config) : list Pipeline.fn_def :=
   map (fun x => t_def (snd x)) (isort (cleb (g_ppath c)) (t_cmds w p)).
 
 (* ---- the generated text (token streams in plain mode, text in zod mode and for events.ts) ---- *)
-Definition types_ts (w : sched) (p : tproject) (c : config) : list tk := P.types_toks (gen_structs w p) (gen_cmds w p c).
-Definition commands_ts (w : sched) (p : tproject) (c : config) : list tk := P.commands_toks (gen_cmds w p c).
-Definition zod_types_ts (w : sched) (p : tproject) (c : config) : str := PZ.zod_types_text (gen_structs w p) (gen_cmds w p c).
-Definition zod_commands_ts (w : sched) (p : tproject) (c : config) : str := PZ.zod_commands_text (gen_cmds w p c).
+Definition types_ts (w : sched) (p : tproject) (c : config) : list tk := Pipeline.types_toks (gen_structs w p) (gen_cmds w p c).
+Definition commands_ts (w : sched) (p : tproject) (c : config) : list tk := Pipeline.commands_toks (gen_cmds w p c).
+Definition zod_types_ts (w : sched) (p : tproject) (c : config) : str := PipelineZod.zod_types_text (gen_structs w p) (gen_cmds w p c).
+Definition zod_commands_ts (w : sched) (p : tproject) (c : config) : str := PipelineZod.zod_commands_text (gen_cmds w p c).
 Definition ev_pairs (l : list event) : list (str * str) := map (fun e => (e_name e, e_payload e)) l.
 Definition sorted_maps (c : config) : list (str * str) :=
   match g_maps c with None => [] | Some l => isort kv_leb l end.
+Definition ev_text (w : sched) (p : tproject) (c : config) : str :=
+  Events.events_text (Events.map_events (sorted_maps c) (ev_pairs (a_events (analyse w (abs_project p))))).
 Definition events_ts (w : sched) (p : tproject) (c : config) : option str :=
-  let a := analyse w (abs_project p) in
-  if has_events a then Some (EV.events_text (EV.map_events (sorted_maps c) (ev_pairs (a_events a)))) else None.
+  if has_events (analyse w (abs_project p)) then Some (ev_text w p c) else None.
+
+(* ---- the write plan with text where a text-level model exists (types.ts, commands.ts in both modes, events.ts in
+   plain mode) and the view elsewhere (index.ts, dependency-graph.*, events.ts in zod mode) ---- *)
+Inductive content := CToks (l : list tk) | CText (s : str) | CView (v : tree).
+Definition is_zod (c : config) : bool := str_eqb (g_lib c) (L "zod").
+Definition text_content (w : sched) (p : tproject) (c : config) (f : fname) (v : tree) : content :=
+  match f with
+  | Types => if is_zod c then CText (zod_types_ts w p c) else CToks (types_ts w p c)
+  | Commands => if is_zod c then CText (zod_commands_ts w p c) else CToks (commands_ts w p c)
+  | Events => if is_zod c then CView v else CText (ev_text w p c)
+  | _ => CView v
+  end.
+Definition text_files (w : sched) (p : tproject) (c : config) : list (fname * content) :=
+  map (fun fx => (fst fx, text_content w p c (fst fx) (snd fx))) (view_of w p c).
+Definition has_commands_t (p : tproject) : bool := has_commands (abs_project p).
 
 (* ---- the same text as a function of the analysed data alone ---- *)
 Definition ts_of_s (s : str) : str := match parse_type_structure s with Some ts => render ts | None => [] end.
 Definition ret_ts_s (s : str) : str :=
-  match parse_type_structure s with Some ts => P.add_types_prefix (render ts) | None => [] end.
+  match parse_type_structure s with Some ts => Pipeline.add_types_prefix (render ts) | None => [] end.
 Definition zschema_of_s (s : str) : str :=
-  match parse_type_structure s with Some ts => PZ.zrender ts false | None => [] end.
+  match parse_type_structure s with Some ts => PipelineZod.zrender ts false | None => [] end.
 Definition key_a (ra : option str) (f : field) : str :=
   match f_rename f with
   | Some v => v
   | None => match ra with
-            | Some r => if str_eqb r (L "camelCase") then P.camel (f_name f)
-                        else if str_eqb r (L "PascalCase") then P.pascal true (f_name f) else f_name f
+            | Some r => if str_eqb r (L "camelCase") then Pipeline.camel (f_name f)
+                        else if str_eqb r (L "PascalCase") then Pipeline.pascal true (f_name f) else f_name f
             | None => f_name f
             end
   end.
 Definition ST3 (name : str) (fields : list field) (ra : option str) : list tk :=
-  [P.I "export"; P.I "interface"; KId name; P.Pn "{"] ++
-  flat_map (fun f => P.member_toks (key_a ra f) (f_opt f) (ts_of_s (f_type f))) fields ++ [P.Pn "}"].
+  [Pipeline.I "export"; Pipeline.I "interface"; KId name; Pipeline.Pn "{"] ++
+  flat_map (fun f => Pipeline.member_toks (key_a ra f) (f_opt f) (ts_of_s (f_type f))) fields ++ [Pipeline.Pn "}"].
 Definition ST (s : struct) : list tk := ST3 (s_name s) (s_fields s) (s_rename_all s).
 Definition PT3 (name : str) (ps : list param) (cs : list chan) : list tk :=
   match ps, cs with
   | [], [] => []
   | vs, cs =>
-      [P.I "export"; P.I "interface"; KId (P.pascal true name ++ L "Params"); P.Pn "{"] ++
-      flat_map (fun p => P.member_toks (P.camel (p_name p)) (p_opt p) (ts_of_s (p_type p))) vs ++
-      flat_map (fun c => P.ty_toks (P.camel (ch_param c)) ++ [P.Pn ":"; P.I "Channel"; P.Pn "<"] ++ P.ty_toks (ts_of_s (ch_msg c)) ++ [P.Pn ">"; P.Pn ";"]) cs ++
-      [P.Pn "["; P.I "key"; P.Pn ":"; P.I "string"; P.Pn "]"; P.Pn ":"; P.I "unknown"; P.Pn ";"; P.Pn "}"]
+      [Pipeline.I "export"; Pipeline.I "interface"; KId (Pipeline.pascal true name ++ L "Params"); Pipeline.Pn "{"] ++
+      flat_map (fun p => Pipeline.member_toks (Pipeline.camel (p_name p)) (p_opt p) (ts_of_s (p_type p))) vs ++
+      flat_map (fun c => Pipeline.ty_toks (Pipeline.camel (ch_param c)) ++ [Pipeline.Pn ":"; Pipeline.I "Channel"; Pipeline.Pn "<"] ++ Pipeline.ty_toks (ts_of_s (ch_msg c)) ++ [Pipeline.Pn ">"; Pipeline.Pn ";"]) cs ++
+      [Pipeline.Pn "["; Pipeline.I "key"; Pipeline.Pn ":"; Pipeline.I "string"; Pipeline.Pn "]"; Pipeline.Pn ":"; Pipeline.I "unknown"; Pipeline.Pn ";"; Pipeline.Pn "}"]
   end.
 Definition PT (k : command) : list tk := PT3 (c_name k) (c_params k) (c_chans k).
 Definition has_chan_a (cl : list command) : bool := existsb (fun k => negb (Nat.eqb (List.length (c_chans k)) 0)) cl.
 Definition types_toks_a (sl : list struct) (cl : list command) : list tk :=
   (if has_chan_a cl
-   then [P.I "import"; P.I "type"; P.Pn "{"; P.I "Channel"; P.Pn "}"; P.I "from"; P.S1 "@tauri-apps/api/core"; P.Pn ";"] else []) ++
+   then [Pipeline.I "import"; Pipeline.I "type"; Pipeline.Pn "{"; Pipeline.I "Channel"; Pipeline.Pn "}"; Pipeline.I "from"; Pipeline.S1 "@tauri-apps/api/core"; Pipeline.Pn ";"] else []) ++
   flat_map ST sl ++ flat_map PT cl.
 Definition WT4 (name : str) (np nc : nat) (ret : str) : list tk :=
   let has := negb (Nat.eqb (np + nc) 0) in
-  [P.I "export"; P.I "async"; P.I "function"; KId (P.camel name); P.Pn "("] ++
-  (if has then [P.I "params"; P.Pn ":"; P.I "types"; P.Pn "."; KId (P.pascal true name ++ L "Params")] else []) ++
-  [P.Pn ")"; P.Pn ":"; P.I "Promise"; P.Pn "<"] ++ P.ty_toks (ret_ts_s ret) ++
-  [P.Pn ">"; P.Pn "{"; P.I "return"; P.I "invoke"; P.Pn "("; KStr "'"%char name] ++
-  (if has then [P.Pn ","; P.I "params"] else []) ++ [P.Pn ")"; P.Pn ";"; P.Pn "}"].
+  [Pipeline.I "export"; Pipeline.I "async"; Pipeline.I "function"; KId (Pipeline.camel name); Pipeline.Pn "("] ++
+  (if has then [Pipeline.I "params"; Pipeline.Pn ":"; Pipeline.I "types"; Pipeline.Pn "."; KId (Pipeline.pascal true name ++ L "Params")] else []) ++
+  [Pipeline.Pn ")"; Pipeline.Pn ":"; Pipeline.I "Promise"; Pipeline.Pn "<"] ++ Pipeline.ty_toks (ret_ts_s ret) ++
+  [Pipeline.Pn ">"; Pipeline.Pn "{"; Pipeline.I "return"; Pipeline.I "invoke"; Pipeline.Pn "("; KStr "'"%char name] ++
+  (if has then [Pipeline.Pn ","; Pipeline.I "params"] else []) ++ [Pipeline.Pn ")"; Pipeline.Pn ";"; Pipeline.Pn "}"].
 Definition WT (k : command) : list tk := WT4 (c_name k) (List.length (c_params k)) (List.length (c_chans k)) (c_ret k).
 Definition commands_toks_a (cl : list command) : list tk :=
-  [P.I "import"; P.Pn "{"; P.I "invoke"] ++
-  (if has_chan_a cl then [P.Pn ","; P.I "Channel"] else []) ++
-  [P.Pn "}"; P.I "from"; P.S1 "@tauri-apps/api/core"; P.Pn ";";
-   P.I "import"; P.Pn "*"; P.I "as"; P.I "types"; P.I "from"; P.S1 "./types"; P.Pn ";"] ++
+  [Pipeline.I "import"; Pipeline.Pn "{"; Pipeline.I "invoke"] ++
+  (if has_chan_a cl then [Pipeline.Pn ","; Pipeline.I "Channel"] else []) ++
+  [Pipeline.Pn "}"; Pipeline.I "from"; Pipeline.S1 "@tauri-apps/api/core"; Pipeline.Pn ";";
+   Pipeline.I "import"; Pipeline.Pn "*"; Pipeline.I "as"; Pipeline.I "types"; Pipeline.I "from"; Pipeline.S1 "./types"; Pipeline.Pn ";"] ++
   flat_map WT cl.
+
+(* zod mode: PipelineZod.v on the analysed data *)
+Definition ZST3 (name : str) (fields : list field) (ra : option str) : str :=
+  PipelineZod.cat [PipelineZod.T "export const "; name; PipelineZod.T "Schema = z.object({ "] ++
+  PipelineZod.cat (map (fun f => PipelineZod.cat [key_a ra f; PipelineZod.T ": "; zschema_of_s (f_type f); PipelineZod.T ", "]) fields) ++
+  PipelineZod.cat [PipelineZod.T "}); export type "; name; PipelineZod.T " = z.infer<typeof "; name; PipelineZod.T "Schema>; "].
+Definition ZST (s : struct) : str := ZST3 (s_name s) (s_fields s) (s_rename_all s).
+Definition ZPS2 (name : str) (ps : list param) : str :=
+  match ps with
+  | [] => []
+  | vs => PipelineZod.cat [PipelineZod.T "export const "; Pipeline.pascal true name; PipelineZod.T "ParamsSchema = z.object({ "] ++
+          PipelineZod.cat (map (fun p => PipelineZod.cat [Pipeline.camel (p_name p); PipelineZod.T ": "; zschema_of_s (p_type p); (if p_opt p then PipelineZod.T ".optional()" else []); PipelineZod.T ", "]) vs) ++
+          PipelineZod.T "}); "
+  end.
+Definition ZPS (k : command) : str := ZPS2 (c_name k) (c_params k).
+Definition ZCM (cs : list chan) : str :=
+  PipelineZod.cat (map (fun c => PipelineZod.cat [Pipeline.camel (ch_param c); PipelineZod.T ": Channel<"; ts_of_s (ch_msg c); PipelineZod.T ">; "]) cs).
+Definition ZAL3 (name : str) (ps : list param) (cs : list chan) : str :=
+  let tn := Pipeline.pascal true name in
+  match ps, cs with
+  | [], [] => []
+  | [], _ => PipelineZod.cat [PipelineZod.T "export interface "; tn; PipelineZod.T "Params { "; ZCM cs; PipelineZod.T "[key: string]: unknown; } "]
+  | _, [] => PipelineZod.cat [PipelineZod.T "export type "; tn; PipelineZod.T "Params = z.infer<typeof "; tn; PipelineZod.T "ParamsSchema>; "]
+  | _, _ => PipelineZod.cat [PipelineZod.T "export interface "; tn; PipelineZod.T "Params extends z.infer<typeof "; tn; PipelineZod.T "ParamsSchema> { "; ZCM cs; PipelineZod.T "} "]
+  end.
+Definition ZAL (k : command) : str := ZAL3 (c_name k) (c_params k) (c_chans k).
+Definition zod_types_a (sl : list struct) (cl : list command) : str :=
+  PipelineZod.T "import { z } from 'zod'; " ++
+  (if has_chan_a cl then PipelineZod.T "import type { Channel } from '@tauri-apps/api/core'; " else []) ++
+  PipelineZod.cat (map ZST sl) ++ PipelineZod.cat (map ZPS cl) ++ PipelineZod.cat (map ZAL cl).
+Definition ZWT4 (nm : str) (np : nat) (cs : list chan) (ret_s : str) : str :=
+  let ret := ret_ts_s ret_s in
+  let hp := negb (Nat.eqb np 0) in
+  let hc := negb (Nat.eqb (List.length cs) 0) in
+  let tn := Pipeline.pascal true nm in
+  if hp || hc then
+    PipelineZod.cat [PipelineZod.T "export async function "; Pipeline.camel nm; PipelineZod.T "(params: types."; tn; PipelineZod.T "Params, hooks?: CommandHooks<"; ret; PipelineZod.T ">): Promise<"; ret; PipelineZod.T "> { try { "] ++
+    (if hp then
+       PipelineZod.cat [PipelineZod.T "const result = types."; tn; PipelineZod.T "ParamsSchema.safeParse(params); if (!result.success) { hooks?.onValidationError?.(result.error); throw result.error; } "] ++
+       (if hc then
+          PipelineZod.cat [PipelineZod.T "const data = await invoke<"; ret; PipelineZod.T ">('"; nm; PipelineZod.T "', { ...result.data, "] ++
+          join (PipelineZod.T ", ") (map (fun c => PipelineZod.cat [Pipeline.camel (ch_param c); PipelineZod.T ": params."; Pipeline.camel (ch_param c)]) cs) ++ PipelineZod.T " }); "
+        else PipelineZod.cat [PipelineZod.T "const data = await invoke<"; ret; PipelineZod.T ">('"; nm; PipelineZod.T "', result.data); "])
+     else PipelineZod.cat [PipelineZod.T "const data = await invoke<"; ret; PipelineZod.T ">('"; nm; PipelineZod.T "', params); "]) ++
+    PipelineZod.T "hooks?.onSuccess?.(data); return data; } catch (error) { " ++
+    (if hp then PipelineZod.T "if (!(error instanceof ZodError)) { hooks?.onInvokeError?.(error); } " else PipelineZod.T "hooks?.onInvokeError?.(error); ") ++
+    PipelineZod.T "throw error; } finally { hooks?.onSettled?.(); } } "
+  else
+    PipelineZod.cat [PipelineZod.T "export async function "; Pipeline.camel nm; PipelineZod.T "(hooks?: CommandHooks<"; ret; PipelineZod.T ">): Promise<"; ret; PipelineZod.T "> { try { const data = await invoke<"; ret; PipelineZod.T ">('"; nm;
+         PipelineZod.T "'); hooks?.onSuccess?.(data); return data; } catch (error) { hooks?.onInvokeError?.(error); throw error; } finally { hooks?.onSettled?.(); } } "].
+Definition ZWT (k : command) : str := ZWT4 (c_name k) (List.length (c_params k)) (c_chans k) (c_ret k).
+Definition zod_commands_a (cl : list command) : str :=
+  (if has_chan_a cl then PipelineZod.T "import { invoke, Channel } from '@tauri-apps/api/core'; " else PipelineZod.T "import { invoke } from '@tauri-apps/api/core'; ") ++
+  PipelineZod.T "import { ZodError } from 'zod'; import * as types from './types'; " ++ PipelineZod.hooks_text ++ PipelineZod.cat (map ZWT cl).
 
 (* the items in hash order = generation order *)
 Definition a_structs_sorted (a : analysis) : list struct := isort struct_leb (a_structs a).
 Definition a_cmds_sorted (root : str) (a : analysis) : list command := isort (cmd_leb root) (a_cmds a).
 
+(* ---- the run / cache state machine of C08Run.v over syntax-level projects and text-level contents: the same control
+   flow (fingerprint of the analysed data, presence test over the same file names), the files hold text ---- *)
+Definition tstate := state tproject config fname content tree.
+Definition top := op tproject config sched fname.
+Definition tgen := gen tproject config sched.
+Definition run_t : sched -> bool -> option nat -> tstate -> result * tstate :=
+  run tproject config sched fname content tree fname_eqb tree_eqb text_files fp_t has_commands_t g_force true.
+Definition stepG_t : tstate * option tgen -> top -> tstate * option tgen :=
+  stepG tproject config sched fname content tree fname_eqb tree_eqb text_files fp_t has_commands_t g_force true.
+Definition cache_hit_t : sched -> tstate -> bool :=
+  cache_hit tproject config sched fname content tree tree_eqb text_files fp_t true.
+Definition init_t (p : tproject) (c : config) : tstate :=
+  {| s_src := p; s_cfg := c; s_out := fun _ => None; s_cache := None |}.
+(* the recorded class 8 at this level: same predicate as kf_C08, on the analysed data of the syntax-level project *)
+Definition kf_C08_t (w : sched) (sg : tstate * option tgen) : list nat :=
+  let (st, g) := sg in
+  if has_commands_t (s_src st) && negb (g_force (s_cfg st)) && cache_hit_t w st then
+    match g with
+    | Some (w0, p0, c0) =>
+        if tree_eqb (fp_t w0 p0 c0) (fp_t w (s_src st) (s_cfg st))
+        then (if tree_eqb (u_lines (analyse w0 (abs_project p0)) c0) (u_lines (analyse w (abs_project (s_src st))) (s_cfg st))
+              then [] else [8])
+        else []
+    | None => []
+    end
+  else [].
+
 (* ---- a sample: the project of Pipeline.v in two files ---- *)
 Definition ex_tp (name : str) (fname0 : str) : tproject :=
-  [ {| tf_path := L "src-tauri/src/b.rs"; tf_structs := []; tf_fns := map (fun f => {| t_def := f; t_line := L "7" |}) (skipn 2 P.fns);
+  [ {| tf_path := L "src-tauri/src/b.rs"; tf_structs := []; tf_fns := map (fun f => {| t_def := f; t_line := L "7" |}) (skipn 2 Pipeline.fns);
        tf_events := []; tf_ndefs := L "0" |};
     {| tf_path := L "src-tauri/src/a.rs";
-       tf_structs := [ {| P.s_name := name; P.s_serde := P.s_serde P.user;
-                          P.s_fields := {| P.f_name := fname0; P.f_ty := P.T0 "i32"; P.f_serde := [] |} :: tl (P.s_fields P.user) |} ];
-       tf_fns := map (fun f => {| t_def := f; t_line := L "3" |}) (firstn 2 P.fns);
+       tf_structs := [ {| Pipeline.s_name := name; Pipeline.s_serde := Pipeline.s_serde Pipeline.user;
+                          Pipeline.s_fields := {| Pipeline.f_name := fname0; Pipeline.f_ty := Pipeline.T0 "i32"; Pipeline.f_serde := [] |} :: tl (Pipeline.s_fields Pipeline.user) |} ];
+       tf_fns := map (fun f => {| t_def := f; t_line := L "3" |}) (firstn 2 Pipeline.fns);
        tf_events := [ {| e_name := L "ping"; e_payload := L "String" |} ]; tf_ndefs := L "1" |} ].
 Definition ex_tc : config :=
   {| g_lib := L "none"; g_private := false; g_maps := None; g_pcase := L "camelCase"; g_fcase := L "snake_case";
